@@ -488,6 +488,17 @@ def rule_end_scan(ctx):
                              (render(nd[1])[:90], ", ".join(sorted(measured - advanced)) or "nothing"))
             else:
                 ctx.holds("ENDSCAN", key, f.where(node_line(nd)), "the end-of-file estimate is raised inside the walk from the walk's current `%s`" % ", ".join(sorted(measured)), nontrivial=True)
+        # completeness: both kinds of extent are measured - the block's own (its offset and its number of descriptors) and the
+        # element's (a descriptor's offset and length)
+        fields = set()
+        for nd, st in ups:
+            fields |= {x[2] for x in walk(nd[1], True) if x[0] == "mem"}
+        n += 1
+        key = "ENDSCAN:%s:kinds" % f.name
+        if "myoffset" in fields and {"offset", "length"} <= fields:
+            ctx.holds("ENDSCAN", key, f.where(), "the walk measures the extent of each DD block and of each element", nontrivial=True)
+        else:
+            ctx.violated("ENDSCAN", key, f.where(), "the end-of-file estimate does not take %s into account: when that is the last thing in the file, the next allocation is placed on top of it" % ("the DD blocks' own extent" if "myoffset" not in fields else "the elements' extent"))
     ctx.floor("ENDSCAN", 2, n, "(max-updates of the end-of-file estimate while the DD blocks are read)")
     return n
 
@@ -1746,4 +1757,63 @@ def rule_inner_accumulator_reset(ctx, files=("hdf/src/vrw.c",), floor=3):
                 else:
                     ctx.violated("ACCRESET", key, f.where(line), "`%s` accumulates inside the inner loop and is read there, but nothing in the enclosing loop resets it: from the second pass of the outer loop on it starts where the previous pass left it" % v)
     ctx.floor("ACCRESET", floor, n, "(running offsets of an inner loop nested in a piece-wise loop)")
+    return n
+
+
+def rule_carried_index_reset(ctx):
+    """IDXRESET (C12): a search that resumes in the middle of a DD block walks `for (block..) for (; idx < ndds; idx++)`: the
+    inner loop has no initialiser because the first block is entered at the resume position.  For every later block the
+    position is the block's first (or, backwards, last) slot, so the body of the outer loop assigns `idx` after the inner
+    loop.  Where that assignment is missing, the remaining blocks are scanned from beyond their end: the entries of a tag
+    that live in a second block are not found by the forward wildcard search, while Hnumber still counts them."""
+    prog = ctx.prog
+    n = 0
+    for f in prog.lib_funcs():
+        if not f.rel.endswith("hdf/src/hfiledd.c"):
+            continue
+        occ = 0
+        for lp, st in loops_of(f):
+            if lp[0] != "for" or lp[1] is not None:
+                continue          # only inner loops without an initialiser
+            outer = [a for a in st if a[0] in ("for", "while", "do")]
+            if not outer:
+                continue
+            o = outer[-1]
+            # the carried variable: the one the inner loop's condition tests and its step changes
+            v = None
+            stepped = set()
+            if lp[3] is not None:
+                for x in walk(lp[3], True):
+                    if x[0] == "incdec" and kind(strip(x[3])) == "var":
+                        stepped.add(strip(x[3])[1])
+            if lp[2] is not None:
+                for x in walk(lp[2], True):
+                    if x[0] == "bin" and x[1] in ("<", "<=", ">", ">=", "!="):
+                        for s_ in (strip(x[2]), strip(x[3])):
+                            if kind(s_) == "var" and s_[1] in stepped:
+                                v = s_[1]
+            if v is None:
+                continue
+            occ += 1
+            n += 1
+            key = "IDXRESET:%s:%s#%d" % (f.name, v, occ)
+            line = node_line(lp)
+            inner_ids = set(id(nd) for _e, nd in seq_of(loop_body(lp)))
+            reset = False
+            for e, nd in seq_of(loop_body(o)):
+                if id(nd) in inner_ids or nd is lp:
+                    continue
+                for x in walk(e, True):
+                    if x[0] == "asg" and x[1] == "=" and kind(strip(x[2])) == "var" and strip(x[2])[1] == v:
+                        reset = True
+            # the outer for-statement's own step may do it too
+            if o[0] == "for" and o[3] is not None:
+                for x in walk(o[3], True):
+                    if x[0] == "asg" and x[1] == "=" and kind(strip(x[2])) == "var" and strip(x[2])[1] == v:
+                        reset = True
+            if reset:
+                ctx.holds("IDXRESET", key, f.where(line), "`%s` is given the next block's starting slot after the inner scan" % v, nontrivial=True)
+            else:
+                ctx.violated("IDXRESET", key, f.where(line), "the inner scan resumes at `%s` and nothing in the walk over the blocks resets it afterwards: every block after the first is scanned from where the previous one ended" % v)
+    ctx.floor("IDXRESET", 4, n, "(resumed scans of a DD block inside a walk over the blocks)")
     return n
